@@ -1702,6 +1702,12 @@ class GroupBy:
 
         return_polars = self._values_is_polars(type_list)
 
+        if mask is not None and not pd.api.types.is_bool_dtype(mask):
+            # the kernels read the mask as one flag per row
+            raise TypeError(
+                f"ema only supports a boolean mask, got dtype {getattr(mask, 'dtype', None)}"
+            )
+
         if times is not None:
             # (a length mismatch is reported by ema_grouped)
             if isinstance(times, pd.Series) and len(times) == len(self):
